@@ -1,6 +1,7 @@
 //! Per-property simulations and their batch configurations.
 
 pub mod c16;
+pub mod c19;
 #[cfg(feature = "reg")]
 pub mod c20;
 
@@ -61,6 +62,23 @@ pub fn batch_cfg(prop: &str, tier: Tier, seed: u64) -> BatchCfg {
             cfg.components = json!({
                 "real": ["wac-parser (lexer, parser, printer, resolution)", "wac-graph (graph API, encoder)", "wac-types (package decoding, aggregator, checker)", "wac-resolver (packages discovery, fs resolver at load time)", "wasmparser / wasm-encoder / wit-parser / wit-component", "std HashMap/HashSet (real SipHash, keys chosen by the simulator)"],
                 "stub": ["kernel getrandom (interposed: keys are a function of the simulated process's hash seed)", "process boundary (a simulated process is a fresh OS thread, joined before the next one starts)"],
+            });
+        }
+        "C19" => {
+            cfg.runs = if quick { 3_000 } else { 150_000 };
+            cfg.chunk = 50;
+            cfg.sample_every = cfg.runs / 4;
+            cfg.recheck = if quick { 32 } else { 256 };
+            cfg.rule = "Seeded simulation runs: each run draws a scenario (subcommand compose|plug|parse|targets, a generated or shipped document / library components, a flag combination, 0-2 disk faults on the source or the dependency files, a hash seed), materialises it on a scratch tree, runs the built `wac` binary as a child process with controlled cwd/argv/env, and compares exit status, stdout, stderr and the output file with the same tree's library pipeline executed in-process on the same bytes. A run is non-trivial always (a child process was executed); distinct = distinct SHA-256 digests of the run's event log (scenario, argv, faults, source text, child exit/sizes, reference stage).".into();
+            cfg.assumptions = vec![
+                "The reference is the library of the same working tree: a consistent change of wording or encoding cannot alarm, only a CLI/library divergence can.".into(),
+                "The wac binary is built with --no-default-features --features wit,wat (no registry client is linked; the registry path is C20's subject).".into(),
+                "Runs whose child dies on a signal (stack overflow on faulted input) are C14's subject and are recorded, not judged.".into(),
+                "For `wac plug` byte equality is demanded only when plugs sharing a file stem are adjacent on the command line; the statement does not fix the order otherwise.".into(),
+            ];
+            cfg.components = json!({
+                "real": ["the built `wac` binary (src/bin/wac.rs, src/commands/*.rs, src/lib.rs) as a child process", "kernel file system on a tmpfs scratch tree", "in-process reference: wac-parser, wac-resolver (fs), wac-graph, wac-types, wasmprinter, wat, wit-parser, wit-component"],
+                "stub": ["kernel getrandom in the child (LD_PRELOAD shim keyed by the run's hash seed)", "the registry (not linked into this build)"],
             });
         }
         _ => {}
